@@ -1,4 +1,4 @@
 SPECIFICATION Spec
-CONSTANTS MaxFeat = 1 MaxRows = 2 MaxProt = 2 Mut_EndOffByOne = FALSE Mut_KeepDD = TRUE Mut_ValidSkipsDD = FALSE
+CONSTANTS ProtSep = ":" MaxFeat = 1 MaxRows = 2 MaxProt = 2 Mut_EndOffByOne = FALSE Mut_KeepDD = TRUE Mut_ValidSkipsDD = FALSE
 INVARIANT OneLinePerPsmInv
 CHECK_DEADLOCK FALSE
